@@ -47,7 +47,7 @@ def main():
         from .gui import run_gui
         run_gui()
     elif args.script:
-        run_script(args.script)
+        sys.exit(run_script(args.script))
     elif args.scrape_currency_to:
         print("Scraping currency data...")
         scrape_and_store_rates_to(args.scrape_currency_to)
@@ -57,7 +57,7 @@ def main():
 def run_script(path):
     with open(path, "r") as f:
         s = f.read()
-        execute(s)
+        return execute(s)
 
 if __name__ == "__main__":
     main()
